@@ -967,6 +967,13 @@ theorem inv_step {w : World} (h : Inv w) (a : Action) (hb : a.benign = true) : I
   | gettx m => exact inv_stepGetTx h m
   | giveup => exact inv_stepGiveup h
   | wait => exact inv_stepWait h
+  | poll =>
+    simp only [step]
+    split
+    · exact h
+    · rename_i p hp
+      apply inv_settle
+      exact h.setProc _ _ (pinv_observe (h.proc p hp))
   | bump n =>
     simp only [step]
     refine h.frame rfl rfl rfl rfl rfl ?_ ?_
